@@ -176,6 +176,41 @@ def confirm(pid: str, path: str) -> tuple[bool, str]:
     return True, ""
 
 
+class PoolStalled(RuntimeError):
+    pass
+
+
+def _cpu_of(pid: int) -> float:
+    try:
+        with open(f"/proc/{pid}/stat") as fh:
+            f = fh.read().rsplit(")", 1)[1].split()
+        return (int(f[11]) + int(f[12])) / os.sysconf("SC_CLK_TCK")
+    except Exception:  # noqa: BLE001
+        return -1.0
+
+
+def _watch(pool, it, njobs: int, period: float = 30.0, patience: int = 10):
+    """Yield the pool's results; raise PoolStalled when results are outstanding and no worker has used any CPU time for patience*period
+    seconds (the CPU-time watchdog inside a worker cannot see a worker that was killed or whose threads wait for each other)."""
+    got, idle, last = 0, 0, {}
+    while got < njobs:
+        try:
+            r = it.next(timeout=period)
+        except mp.TimeoutError:
+            now = {p.pid: _cpu_of(p.pid) for p in list(getattr(pool, "_pool", []))}
+            busy = any(pid not in last or cpu - last[pid] > 0.2 for pid, cpu in now.items())
+            last = now
+            idle = 0 if busy else idle + 1
+            if idle >= patience:
+                raise PoolStalled(f"{njobs - got} of {njobs} jobs outstanding and no worker used CPU time for {idle * period:.0f}s")
+            continue
+        except StopIteration:
+            return
+        got += 1
+        idle = 0
+        yield r
+
+
 def run_check(mod, tier: str, seed: int) -> int:
     pid = mod.ID
     t0 = time.time()
@@ -203,7 +238,8 @@ def run_check(mod, tier: str, seed: int) -> int:
         pool = None
     else:
         pool = mp.get_context("fork").Pool(nproc, initializer=_init_worker, maxtasksperchild=per_child)
-        results = pool.imap_unordered(_run_job, [(modname, j) for j in jobs], chunksize=1)
+        results = _watch(pool, pool.imap_unordered(_run_job, [(modname, j) for j in jobs], chunksize=1), len(jobs))
+    stalled = False
     try:
         for r in results:
             agg.evaluations += r.evaluations
@@ -227,9 +263,16 @@ def run_check(mod, tier: str, seed: int) -> int:
                 lst = clusters.setdefault(v.cluster, [])
                 if len(lst) < 6:
                     lst.append(v)
+    except PoolStalled as e:
+        # a worker died without an answer (the pool never re-issues its job) or deadlocked: a failure of the checker, not of the library
+        stalled = True
+        clusters.setdefault("checker:pool-stalled", []).append(Violation("checker:pool-stalled", "checker:pool-stalled", {}, str(e)))
     finally:
         if pool is not None:
-            pool.close()
+            if stalled:
+                pool.terminate()
+            else:
+                pool.close()
             pool.join()
 
     # ---- triage against the known-findings file (read-only) ----
